@@ -259,6 +259,24 @@ Theorem C18_no_placeholder_left : forall fx self_args nodes reqs args node node'
 Proof. exact no_placeholder_left. Qed.
 Print Assumptions C18_no_placeholder_left.
 
+(* a type argument that differs from the interface only deep inside a submodule subtree does not conform: some submodule
+   of the interface has no tree-equal partner among the argument's submodules (equal field name and type symbol do not
+   suffice: tree equality descends, [sub_eqb_needs_equal_subtrees]) -> AssignedTypDoesNotConformToInterface *)
+Theorem C18_deep_mismatch_does_not_conform : forall fx self_args nodes gb req name args node repl iface gi s,
+  is_binding self_args name = false -> lookup name nodes = Some (repl, []) -> lookup (g_bound gb) nodes = Some (iface, gi) ->
+  In s (n_subs iface) -> (forall o, In o (n_subs repl) -> sub_eqb o s = false) ->
+  replace_loop fx self_args nodes (gb :: req) (name :: args) node = Err K_DOES_NOT_CONFORM.
+Proof.
+  intros. eapply non_conforming_argument_error; try eassumption. eapply deep_mismatch_not_conform; eassumption.
+Qed.
+Print Assumptions C18_deep_mismatch_does_not_conform.
+
+Theorem C18_tree_equality_descends : forall f f' t t' subs subs' g g' c c',
+  sub_eqb (f, mkNode t subs g c) (f', mkNode t' subs' g' c') = true ->
+  length subs = length subs' /\ forall i a b, nth_error subs i = Some a -> nth_error subs' i = Some b -> sub_eqb a b = true.
+Proof. exact sub_eqb_needs_equal_subtrees. Qed.
+Print Assumptions C18_tree_equality_descends.
+
 (* a definition's error is transform's error when everything before it elaborates *)
 Theorem C18_first_error_is_reported : forall fx pre e post arch arch' links k,
   elaborate fx pre arch links = Ok arch' ->
